@@ -75,8 +75,19 @@ def run(ctx):
               "no macro-generated update body found among the extracted crates (derive sites of tests/test_macros.rs expected)")
     ctx.check(len(rs) >= 14, "roots", "count", "-", "%d simulation roots (runners, steps, %d update impls, helpers, PyO3 step/new)" % (
         len(rs), sum(1 for f in rs if f.name == "update")), "only %d simulation roots found" % len(rs))
-    reach = m.w.reachable(rs)
+    reach, n_calls = deny_rules(ctx, m, rs)
     ctx.extra["reachable_functions"] = len(reach)
+    for cr, why in EXEMPT_CRATES.items():
+        used = sorted({f.short() for f in reach for c in m.q(f).calls() if (c.term.j.get("callee_crate") or "") == cr})
+        only_runners = all(u.endswith("sim_runner") for u in used)
+        ctx.check(only_runners, "deny-list", "exempt|" + cr, "-", "crate %s is used only in the runners' progress branch (%s)" % (cr, why), "crate %s is called from %s" % (cr, used))
+    threading_rules(ctx, m)
+
+
+def deny_rules(ctx, m, rs, what="the simulation roots"):
+    """no deny-listed source of nondeterminism is reachable from the given roots (shared with C18: a StepEnv is deterministic
+    in its seed)"""
+    reach = m.w.reachable(rs)
     n_calls = 0
     hits = []
     for f in reach:
@@ -101,12 +112,11 @@ def run(ctx):
         where = c.loc() if c is not None else ctx.loc(f)
         ctx.bad("deny-list", "%s|%s" % (f.short(), (c.name if c is not None else "cast")), where,
                 "%s reaches a source of nondeterminism (%s): %s" % (f.short(), why, c.text()[:80] if c is not None else why))
-    ctx.check(not hits, "deny-list", "clean", "-", "no deny-listed call among %d call sites in %d functions reachable from the simulation roots" % (n_calls, len(reach)))
-    for cr, why in EXEMPT_CRATES.items():
-        used = sorted({f.short() for f in reach for c in m.q(f).calls() if (c.term.j.get("callee_crate") or "") == cr})
-        only_runners = all(u.endswith("sim_runner") for u in used)
-        ctx.check(only_runners, "deny-list", "exempt|" + cr, "-", "crate %s is used only in the runners' progress branch (%s)" % (cr, why), "crate %s is called from %s" % (cr, used))
+    ctx.check(not hits, "deny-list", "clean", "-", "no deny-listed call among %d call sites in %d functions reachable from %s" % (n_calls, len(reach), what))
+    return reach, n_calls
 
+
+def threading_rules(ctx, m):
     # ---------------------------------------------------------------- generator threading
     n_draw = 0
     from .c19 import builder_view, PYCLASSES
